@@ -34,8 +34,8 @@ var (
 
 type entryManager interface {
 	binaryFormat() uint32
-	record(wb kv.IWriteBatch,
-		shardID uint64, replicaID uint64, ctx IContext, entries []pb.Entry) uint64
+	record(wb kv.IWriteBatch, shardID uint64,
+		replicaID uint64, ctx IContext, entries []pb.Entry) (uint64, error)
 	iterate(ents []pb.Entry, maxIndex uint64,
 		size uint64, shardID uint64, replicaID uint64,
 		low uint64, high uint64, maxSize uint64) ([]pb.Entry, uint64, error)
@@ -196,7 +196,9 @@ func (r *db) saveRaftState(updates []pb.Update, ctx IContext) error {
 			r.setMaxIndex(wb, ud, ud.Snapshot.Index, ctx)
 		}
 	}
-	r.saveEntries(updates, wb, ctx)
+	if err := r.saveEntries(updates, wb, ctx); err != nil {
+		return err
+	}
 	if wb.Count() > 0 {
 		return r.kvs.CommitWriteBatch(wb)
 	}
@@ -485,15 +487,21 @@ func (r *db) compact(shardID uint64, replicaID uint64, index uint64) error {
 	return r.entries.rangedOp(shardID, replicaID, index, op)
 }
 
-func (r *db) saveEntries(updates []pb.Update, wb kv.IWriteBatch, ctx IContext) {
+func (r *db) saveEntries(updates []pb.Update,
+	wb kv.IWriteBatch, ctx IContext) error {
 	for _, ud := range updates {
 		if len(ud.EntriesToSave) > 0 {
-			mi := r.entries.record(wb, ud.ShardID, ud.ReplicaID, ctx, ud.EntriesToSave)
+			mi, err := r.entries.record(wb,
+				ud.ShardID, ud.ReplicaID, ctx, ud.EntriesToSave)
+			if err != nil {
+				return err
+			}
 			if mi > 0 {
 				r.setMaxIndex(wb, ud, mi, ctx)
 			}
 		}
 	}
+	return nil
 }
 
 func (r *db) iterateEntries(ents []pb.Entry,
